@@ -144,7 +144,7 @@ def template_project(rng, name):
     base = "proto tpl\n\n" if rng.chance(0.85) else ""
     tail = "\nmessage Tail {\n    bool ok = 1\n}\n" if rng.chance(0.5) else "\n"
     main = "t.bitproto"
-    text = (base + tpl + tail).replace("@SELF@", main)
+    text = (base + tpl + tail).replace("@SELF@", main).replace("@DIR@", name)
     p = Project(name, {main: text}, main, "template")
     p.extras = True
     return p
@@ -166,7 +166,7 @@ def mutated_project(rng, name, base: Project):
     files = dict(base.files)
     target = base.main if rng.chance(0.7) or len(files) == 1 else rng.choice(sorted(files))
     n = rng.weighted([(1, 6), (2, 3), (3, 2), (5, 1)])
-    files[target] = mutate.mutate(rng, files[target], n).replace("@SELF@", base.main)
+    files[target] = mutate.mutate(rng, files[target], n).replace("@SELF@", base.main).replace("@DIR@", name)
     p = Project(name, files, base.main, "mutated:" + base.origin)
     p.extras = True
     return p
@@ -332,6 +332,19 @@ def gen_plan(seed: int, mode: str):
                 # what a reader of the file would hand over: text mode translates \r\n and \r to \n
                 # (keyed parse_string ops must see the same characters as the file-based golden)
                 as_read = p.files[p.main].replace("\r\n", "\n").replace("\r", "\n") if mode == "c18" else p.files[p.main]
+                if with_path and rng.chance(0.35):
+                    # the language-server case: an unsaved editor buffer under the file's path
+                    # (what is on disk is older); imports still resolve next to the file
+                    br = rng.sub("buffer", sid)
+                    if mode == "c18" and br.chance(0.7):
+                        m0 = re.search(r"^proto\s+(\w+)", as_read, re.M)
+                        s3, _ = schemagen.generate(br, fleet=False, name=(m0.group(1) if m0 else "buffered"))
+                        as_read = s3.text().replace("\r\n", "\n").replace("\r", "\n")
+                    else:
+                        as_read = mutate.mutate(br, as_read, br.randint(1, 2)).replace("@SELF@", p.main).replace("@DIR@", p.name)
+                        if mode == "c18":
+                            as_read = as_read.replace("\r\n", "\n").replace("\r", "\n")
+                    snap.files[snap.main] = as_read  # the compile key is the buffer, not the disk
                 if with_path:
                     op = {"op": "parse_string", "sid": sid, "text": as_read, "filepath": path, "trad": trad}
                 else:
@@ -350,6 +363,8 @@ def gen_plan(seed: int, mode: str):
             ops.append(op)
 
         steps.append(parse_step)
+        if rng.chance(0.3):
+            steps.append(lambda v=rng.below(6): ops.append({"op": "introspect", "sid": sid, "variant": v}))
         if rng.chance(0.5):
             steps.append(lambda: ops.append({"op": "lint", "sid": sid}))
         nr = rng.randint(1, 3) if mode == "c18" else rng.randint(1, 4)
@@ -380,6 +395,8 @@ def gen_plan(seed: int, mode: str):
             steps.append(render_step)
             if rng.chance(0.25):
                 steps.append(lambda: ops.append({"op": "lint", "sid": sid}))
+            if rng.chance(0.15):
+                steps.append(lambda v=rng.below(6): ops.append({"op": "introspect", "sid": sid, "variant": v}))
         return steps
 
     def cli_task(p: Project):
@@ -491,7 +508,7 @@ def gen_plan(seed: int, mode: str):
                 s2, _ = schemagen.generate(er, fleet=False, name=(m.group(1) if m and er.chance(0.7) else "edited"))
                 newtext = s2.text()
             else:
-                newtext = mutate.mutate(er, p.files[p.main], er.randint(1, 3)).replace("@SELF@", p.main)
+                newtext = mutate.mutate(er, p.files[p.main], er.randint(1, 3)).replace("@SELF@", p.main).replace("@DIR@", p.name)
             p.files[p.main] = newtext
             ops.append({"op": "write", "path": p.root + "/" + p.main, "text": newtext})
             # recompile right away, and once more later
